@@ -23,13 +23,13 @@ func init() {
 	register(&Check{
 		ID: "C16", Level: "exploration", Primary: "calls", EvalCount: "calls",
 		Rule: "every call of an exported helper/constructor runs under recover(); a case is distinct by (function, argument-shape signature): " +
-			"ConvertString (tag,first length byte,#following bytes) / wrapper (tag,length class) / several wrapped arguments of different length classes in one call (every ordered pair over 13 lengths 0..70000, random 3..5-tuples); SID (revision,authority) pairs; NewEntry map shapes; " +
+			"ConvertString (tag,first length byte,#following bytes) / wrapper (tag,length class) / several wrapped arguments of different length classes in one call (every ordered pair over 13 lengths 0..70000, random 3..5-tuples), wrapped payloads that are BER elements themselves (one layer comes off, not two); SID (revision,authority) pairs; NewEntry map shapes; " +
 			"constructor x ordered option list; 47 odd strings (blanks, separators, brackets, NUL, invalid UTF-8, almost-OIDs, very long ones) in every string-typed Mux registration option; the default result code of every response constructor called without WithResponseCode (checked on the wire); non-trivial = it reached the function body with that shape",
 		Assume: []string{"panics are observed through recover() in the calling goroutine; New*Response constructors are exercised inside a live handler (the only way to own a *Request)"},
 		Phases: func(tier string, seed int64) []Phase {
 			return []Phase{{Name: "helpers", Run: c16Helpers}, {Name: "constructors", Run: c16Constructors}}
 		},
-		MinObserved: []string{"calls", "sid_pairs", "response_constructor_calls", "default_result_codes_checked", "convertstring_multi_argument_inverse_checked", "convertstring_calls_with_an_argument_of_another_type"},
+		MinObserved: []string{"calls", "convertstring_payloads_that_are_ber_themselves", "sid_pairs", "response_constructor_calls", "default_result_codes_checked", "convertstring_multi_argument_inverse_checked", "convertstring_calls_with_an_argument_of_another_type"},
 	})
 }
 
@@ -135,6 +135,22 @@ func c16Helpers(c *Ctx) {
 		}
 	}
 	c.Sample(map[string]any{"fn": "ConvertString", "arg_hex": "0482012c<300 bytes>", "expect": "the 300 bytes"})
+	// ... also for payloads that look like BER themselves (a binary attribute value is often one): one layer of
+	// wrapping is taken off, not two
+	for _, tag := range []int{4, 27} {
+		for _, innerTag := range []int{0x04, 0x1b, 0x30, 0x02} {
+			for _, n := range []int{0, 1, 3, 127, 128, 255, 256, 300, 65536} {
+				payload := append(append([]byte{byte(innerTag)}, sber.EncodeLength(n)...), r.Bytes(n)...)
+				w := append(append([]byte{byte(tag)}, sber.EncodeLength(len(payload))...), payload...)
+				out, err := conv(fmt.Sprintf("wrap/t%d/inner-t%d/%s", tag, innerTag, lenClass(n)), string(w))
+				c.Count("convertstring_payloads_that_are_ber_themselves", 1)
+				if err != nil || len(out) != 1 || out[0] != string(payload) {
+					c.Violate("ConvertString does not invert BER wrapping", fmt.Sprintf("ConvertString(wrap(tag %d, payload = a BER element of tag %#x with %d content bytes)) = %d results, err=%v: the payload is not returned as it was wrapped", tag, innerTag, n, len(out), err),
+						map[string]any{"tag": tag, "inner_tag": innerTag, "inner_len": n})
+				}
+			}
+		}
+	}
 	// several wrapped arguments of different length classes in ONE call: each result is its own argument's payload
 	mlens := []int{0, 1, 2, 5, 127, 128, 200, 255, 256, 300, 65535, 65536, 70000}
 	multiCase := func(ls []int) {
